@@ -57,6 +57,7 @@ fn main() {
         "C13" => dgh::c13::run(&tier, seed),
         "C08" => dgh::c08::run(&tier, seed),
         "C16" => dgh::c16::run(&tier, seed),
+        "C10" => dgh::c10::run(&tier, seed),
         _ => {
           eprintln!("unknown property {}", prop);
           std::process::exit(2)
